@@ -231,7 +231,29 @@ def trim(sched):
     return out
 
 
-def work(cfg):
+def finish_replay(pid, path, p):
+    """Common tail of --replay: report whether the recorded case still violates the property."""
+    if p.violations:
+        for group, example, what, _ in p.violations:
+            print("VIOLATION property=%s replay=%s" % (pid, path))
+            print("  what: %s" % what)
+            print("  key:  %s|%s" % (group, example))
+        return 1
+    print("%s replay: the recorded case does not violate the property on this tree" % pid)
+    return 0
+
+
+def replay(path):
+    import json
+    d = json.load(open(path))
+    r = d["replay"]
+    if d.get("tier") in BOUNDS:
+        core.TIER = d["tier"]          # the horizon depends on the tier
+    p = work((r["subject"], r["reconnectable"], r["server_initially_up"]), replay=r["choices"])
+    return finish_replay("C27", path, p)
+
+
+def work(cfg, replay=None):
     subject, reconnectable, up0 = cfg
     init()
     b = BOUNDS[core.TIER]
@@ -263,7 +285,11 @@ def work(cfg):
                              "advance the clock, then call the subject's service method(s)")))
         return res
 
-    st = core.dfs(run, bound=b["dev"])
+    if replay is not None:
+        run(core.Chooser(replay))
+        st = dict(executions=1, max_points=len(replay))
+    else:
+        st = core.dfs(run, bound=b["dev"])
     for kind in sorted(best):
         p.violation(*best[kind][1])
     for h in states:
@@ -275,6 +301,9 @@ def work(cfg):
 
 
 def run():
+    import os
+    if os.environ.get("VERIF_REPLAY"):
+        return replay(os.environ["VERIF_REPLAY"])
     net.selftest()
     ck = core.Check("C27", META["level"], META["technique"])
     cfgs = [(s, r, u) for s in SUBJECTS for r in (True, False) for u in (True, False)]
